@@ -311,6 +311,44 @@ def case_poly2(ctx, cfg):
                     raise AssertionError("oracle: a line meets a convex polygon boundary in at most 2 points")
 
 
+    # collections with two axes behind the scenes: a PolygonCollection of this polygon and a shifted copy (mask polygons x
+    # edges), and the edges as a SegmentCollection of shape (2, n): the distinct common points, each once, as Point objects
+    poly_b = [(x + 1, y) for x, y in poly]
+    PC = G.PolygonCollection([G.Polygon(*[P(G, v) for v in poly]), G.Polygon(*[P(G, v) for v in poly_b])])
+    n = len(poly)
+    SC = G.SegmentCollection(np.array([[[list(map(float, pl[i])) + [1.0], list(map(float, pl[(i + 1) % n])) + [1.0]] for i in range(n)] for pl in (poly, poly_b)]))
+    for c, d in pairs[:: max(1, len(pairs) // 40)]:
+        for segment in (False, True):
+            w1, o1 = poly_line_exact(poly, c, d, segment)
+            w2, o2 = poly_line_exact(poly_b, c, d, segment)
+            if o1 or o2:
+                continue
+            want = list(w1) + [x for x in w2 if x not in w1]
+            other = G.Segment(P(G, c), P(G, d)) if segment else G.Line(P(G, c), P(G, d))
+            tag = "segment" if segment else "line"
+            # a SegmentCollection answers pair by pair: one point per edge that is met (a vertex hit counts for both edges)
+            per_edge = []
+            for pl in (poly, poly_b):
+                for i in range(n):
+                    rel = line_line_2d(pl[i], pl[(i + 1) % n], c, d)
+                    if rel[0] == "point" and 0 <= rel[2] <= 1 and (not segment or 0 <= rel[3] <= 1):
+                        per_edge.append(rel[1])
+            for label, obj in (("polygoncollection", PC), ("segmentcollection-2axes", SC)):
+                r, e = ctx.call(obj.intersect, other)
+                ctx.trace()
+                ctx.state((name, label, c, d, segment))
+                inputs = {"polygon": name, "shifted_copy": poly_b, tag: [c, d]}
+                if label.startswith("segmentcollection"):
+                    ok = e is None and all_points(G, r) and len(r) == len(per_edge) and pts_match(as_arrays(r)[:0] + [g for i, g in enumerate(as_arrays(r)) if not any(proj_eq(g, h, 1e-9) for h in as_arrays(r)[:i])], want)
+                    if not ok:
+                        ctx.fail(f"{label}-{tag}:{type(e).__name__ if e is not None else 'points'}", "intersect", inputs, [[str(x) for x in p_] for p_ in per_edge], e if e is not None else as_arrays(r))
+                        return
+                    continue
+                if e is not None or not all_points(G, r) or not pts_match(as_arrays(r), want):
+                    ctx.fail(f"{label}-{tag}:{type(e).__name__ if e is not None else 'points' if all_points(G, r) else 'result-type'}", "intersect", inputs, [[str(x) for x in p_] for p_ in want], e if e is not None else (as_arrays(r) if all_points(G, r) else [type(x).__name__ for x in r]))
+                    return
+
+
 # ---------------------------------------------------------------------------------------------------
 
 
